@@ -17,7 +17,7 @@ import (
 
 // C15 — a compiled expression never fails with a Go runtime error.
 
-const ruleC15 = "rapid: 4/5 syntactically valid but semantically unconstrained expressions (any expression in any operand, argument, predicate or path-start position; every axis incl. namespace::; every function in f(...) and zero-argument form with arities 0..3; variables; sequences), 1/5 token soup (1-10 tokens of the full vocabulary, brackets balanced with probability 3/4); only what Compile accepts is evaluated, on small documents (<= ~15 nodes; one in four is drawn from the shapes wide / deep / chain of 25 levels / many attributes) from any context node. enum (exhaustive): every known function applied to every argument combination over {number, one-letter string, six-letter string, multi-byte string, empty string, boolean, node-set, empty node-set} up to arity 3, every binary operator over every type pair, unary minus over every type. Oracle: Select (drained) and Evaluate (iterator drained) either complete or panic with a value that is an error but not a runtime.Error; Evaluate's result is bool, float64, string or *NodeIterator; termination is decided by the harness navigator's operation budget (2*10^7, confirmed with 4*10^7), never by wall clock: on documents of <= 16 nodes (legitimate cost there is < 10^6) running out of budget is non-termination; on the larger (wide) documents, where a nested expression legitimately costs n^k, the case is re-decided on two pruned copies of <= 16 nodes (one keeping the depth, one keeping all children of the document element) and is inconclusive if those terminate. A second exhaustive unit pumps predicates: one step (a, *, descendant::a) followed by segment^k for every segment of one or two predicate forms out of 16 (positional, last(), boolean, function-valued), k = 40 (thorough 24, 40, 80); there termination is decided by an allocation budget sampled while the evaluation runs (3*10^7), because work that never touches the document is invisible to the navigator's budget. Draining a non-node-set expression is capped at 10^4 results (a cap hit is not a violation). Non-trivial: accepted by Compile and contains a function call or mixes value types across an operator; distinct by (document, context, expression)."
+const ruleC15 = "rapid: 4/5 syntactically valid but semantically unconstrained expressions (any expression in any operand, argument, predicate or path-start position; every axis incl. namespace::; every function in f(...) and zero-argument form with arities 0..3; variables; sequences; one case in six with prefixed names, compiled with a namespace map and run on a navigator with or without the optional NamespaceURL() method), 1/5 token soup (1-10 tokens of the full vocabulary, brackets balanced with probability 3/4); only what Compile accepts is evaluated, on small documents (<= ~15 nodes; one in four is drawn from the shapes wide / deep / chain of 25 levels / many attributes) from any context node. enum (exhaustive): every known function applied to every argument combination over {number, one-letter string, six-letter string, multi-byte string, empty string, boolean, node-set, empty node-set} up to arity 3, every binary operator over every type pair, unary minus over every type. Oracle: Select (drained) and Evaluate (iterator drained) either complete or panic with a value that is an error but not a runtime.Error; Evaluate's result is bool, float64, string or *NodeIterator; termination is decided by the harness navigator's operation budget (2*10^7, confirmed with 4*10^7), never by wall clock: on documents of <= 16 nodes (legitimate cost there is < 10^6) running out of budget is non-termination; on the larger (wide) documents, where a nested expression legitimately costs n^k, the case is re-decided on two pruned copies of <= 16 nodes (one keeping the depth, one keeping all children of the document element) and is inconclusive if those terminate. A second exhaustive unit pumps predicates: one step (a, *, descendant::a) followed by segment^k for every segment of one or two predicate forms out of 16 (positional, last(), boolean, function-valued), k = 40 (thorough 24, 40, 80); there termination is decided by an allocation budget sampled while the evaluation runs (3*10^7), because work that never touches the document is invisible to the navigator's budget. Draining a non-node-set expression is capped at 10^4 results (a cap hit is not a violation). Non-trivial: accepted by Compile and contains a function call or mixes value types across an operator; distinct by (document, context, expression)."
 
 var (
 	uC15Rapid = harness.NewUnit("C15", "rapid-unconstrained-expressions", ruleC15)
@@ -236,10 +236,25 @@ func TestC15Rapid(t *testing.T) {
 			o.Texts = []string{"é", "中文", "1", "aé"}
 			o.AtVals = []string{"é", "1", "中"}
 		}
+		// one case in six: prefixes in the document and in the expression, compiled with a map
+		// that binds them - for a navigator with the optional NamespaceURL() method and for one
+		// without it (half and half)
+		var nsmap map[string]string
+		nsFlavour := xdoc.NS
+		if !unicode && rapid.IntRange(0, 5).Draw(rt, "nsmode") == 5 {
+			o.NS = &xgen.NSOpts{Prefixes: []string{"", "p", "q", "r"}, URIs: []string{"", "u1", "u2"}}
+			nsmap = map[string]string{"p": rapid.SampledFrom([]string{"u1", "u2", ""}).Draw(rt, "bind-p"), "q": rapid.SampledFrom([]string{"u1", "u2"}).Draw(rt, "bind-q")}
+			if rapid.Bool().Draw(rt, "ns-plain") {
+				nsFlavour = xdoc.Plain
+			}
+		}
 		doc := xgen.Doc(rt, o)
 		ctx := xgen.Context(rt, doc, 3)
 		g := xgen.NewG(rt, doc)
 		g.ElNames = o.ElNames
+		if nsmap != nil {
+			g.Prefixes = []string{"", "p", "q"}
+		}
 		var text, kind string
 		var ast xast.Expr
 		if rapid.IntRange(0, 4).Draw(rt, "soup") == 0 {
@@ -249,6 +264,10 @@ func TestC15Rapid(t *testing.T) {
 			text, kind = xast.Render(ast), "gen:wild"
 		}
 		l := &harness.Live{Property: "C15", Check: "C15/no-runtime-error", Doc: doc, Ctx: ctx, Expr: text, AST: ast, Flavour: flavourOf(rt)}
+		if nsmap != nil {
+			l.HasNS, l.NSMap, l.Flavour = true, nsmap, nsFlavour
+			shape += "+namespace-map"
+		}
 		journal.Record(l.Save())
 		info, f := oracleC15(l)
 		if f != nil {
